@@ -4,25 +4,22 @@
 // model-based state machine TestC06Versions and the two-backend differential TestC06BackendDiff),
 // concurrent_test.go (TestC06Concurrent, thorough tier, race detector).
 //
-// Findings on the unchanged tree (each has a probe TestC06KF* and is excluded by construction from the
-// generators while it is listed as known / named in VERIF_EXCLUDE_EXTRA):
+// Findings of this check (each has a probe TestC06KF*; a finding listed as known / named in VERIF_EXCLUDE_EXTRA is
+// excluded by construction from the generators, the probes of repaired findings are regression tests):
 //
-//   - SigForeign  pathbadger Finalize never deletes the root node key of a non-finalized root; after the pending
-//     sequence numbers of the version are dropped its child pointers (version, index) resolve in the finalized key
-//     space, i.e. to the FINALIZED sibling's nodes: the discarded root is "present" and reads succeed with foreign
-//     contents. Precondition avoided when excluded: two distinct sibling candidates of one type that may both
-//     create non-root nodes (>= 2 keys and a non-empty batch).
-//   - SigListed   same cause: GetRootsForVersion of a finalized version keeps listing discarded candidates
-//     (badger lists the finalized roots only). When excluded the listing clause is skipped on pathbadger.
-//   - SigShared   badger Finalize puts every node PUT by a discarded root into maybeLoneNodes; a node that the
-//     discarded root re-put with an unchanged hash (no-op rewrite, or a plain removal that collapses a node with a
-//     zero-length label) and that the finalized root inherits untouched is not in notLoneNodes and is deleted at the
-//     version timestamp: the finalized root and every later version fail with "node not found". Precondition
-//     avoided when excluded (decided exactly from the observed PutNode traffic and the reference node set): a
-//     discarded candidate put a node that a finalized root contains and no root of the finalized closure put.
-//   - SigCross    the same across root types (badger node keys are plain hashes shared by state and IO trees), in
-//     Finalize (discarded IO candidate) and in Prune (lone IO root walks and deletes a leaf the state tree inherits).
-//     When excluded, state and IO values are made disjoint.
+//   - SigForeign / SigListed (repaired in /repo, "fix: pathbadger node database removes the root nodes of roots discarded
+//     at finalization"): Finalize never deleted the root node key of a non-finalized root; the root stayed present and
+//     listed, and after the pending sequence numbers were dropped its child pointers resolved to the FINALIZED sibling's
+//     nodes, so reads succeeded with foreign contents. Probes: TestC06KFForeignContents, TestC06KFListedDiscarded.
+//   - SigShared (repaired, "fix: badger node database keeps nodes that a discarded root merely rewrote"): Finalize deleted
+//     a node that a discarded root re-put with an unchanged hash although the finalized root inherits it untouched.
+//     Probe: TestC06KFSharedNode. The generator-side precondition analysis (observed PutNode traffic vs the reference
+//     node set) is kept: it measures non-triviality and would attribute a regression.
+//   - SigCross (known): badger node keys are plain hashes shared by state and IO trees. Prune of version v walks the
+//     finalized IO root (no successors) and tombstones, at v's timestamp, a leaf that the state root of v holds too; later
+//     state versions that inherit the leaf lose it. Precondition avoided while excluded: an IO root finalized together
+//     with a state root holding an identical key/value pair (the IO candidates of that version are then discarded).
+//     Probe: TestC06KFCrossType.
 //
 // Observation (not a violation, counted): badger Prune of a version whose finalized root is an explicitly committed
 // empty root fails with "node not found" forever (label not-accepted:prune:finalized-empty-root:badger:...).
@@ -62,7 +59,8 @@ const (
 	// badger: Finalize deletes a node that the finalized root still references because a discarded
 	// sibling re-put it with an unchanged hash.
 	SigShared = "badger-finalize-deletes-shared-node"
-	// badger: the same mechanism across root types (node keys are plain hashes shared by state and IO trees).
+	// badger: Prune of a version deletes a leaf of the finalized IO root that the state tree holds too (node keys are
+	// plain hashes shared by state and IO trees).
 	SigCross = "badger-cross-type-shared-node"
 )
 
@@ -534,44 +532,54 @@ func TestC06KFSharedNode(t *testing.T) {
 	}
 }
 
-// TestC06KFCrossType: badger stores nodes under their plain hash, shared by all root types. Version 1 state
-// {a=1} finalized; version 2: an IO candidate holding the identical pair a=1 and the unchanged state root; only
-// the state root is finalized. Finalize deletes the leaf (put by the discarded IO root) that the finalized
-// state root still references.
+// TestC06KFCrossType: badger stores nodes under their plain hash, shared by all root types, and Prune deletes every
+// node of a root without successors that was written in the pruned version. Version 1: state {a=1} and IO {a=1} are
+// both finalized (the identical leaf is written once per tree, at the same timestamp). Version 2: state +b=2 (inherits
+// the leaf a=1), finalized. Prune(1) walks the IO root of version 1 and tombstones the leaf at version 1's timestamp;
+// the state root of version 2 loses it. (Until the repair of badger-finalize-deletes-shared-node the same sharing also
+// broke Finalize when the IO candidate was discarded; that variant no longer reproduces.)
 func TestC06KFCrossType(t *testing.T) {
-	rec := ev.New("C06", "TestC06KFCrossType", "deterministic probe of finding "+SigCross+": discarded IO candidate holding a key/value pair of the finalized (unchanged) state root on badger", "")
+	rec := ev.New("C06", "TestC06KFCrossType", "deterministic probe of finding "+SigCross+": finalized IO root holding a key/value pair of the finalized state root of the same version on badger, prune that version, read the next state version", "")
 	defer rec.Flush()
 	ndb := mustOpen(t, "badger")
 	defer ndb.Close()
 	base := []op{ins("a", "1")}
-	h1, _, err := commitOn(ndb, nil, node.RootTypeState, 1, base)
+	hs, _, err := commitOn(ndb, nil, node.RootTypeState, 1, base)
 	if err != nil {
-		ev.Infra(t, "commit v1: %v", err)
+		ev.Infra(t, "commit state v1: %v", err)
 	}
-	r1 := kv.Root(1, node.RootTypeState, h1)
-	if err = ndb.Finalize([]node.Root{r1}); err != nil {
+	hio, _, err := commitOn(ndb, nil, node.RootTypeIO, 1, base)
+	if err != nil {
+		ev.Infra(t, "commit IO v1: %v", err)
+	}
+	s1, io1 := kv.Root(1, node.RootTypeState, hs), kv.Root(1, node.RootTypeIO, hio)
+	if err = ndb.Finalize([]node.Root{s1, io1}); err != nil {
 		ev.Infra(t, "finalize v1: %v", err)
 	}
-	m := applyOps(kv.Model{}, base)
-	if _, _, err = commitOn(ndb, nil, node.RootTypeIO, 2, base); err != nil {
-		ev.Infra(t, "commit IO: %v", err)
-	}
-	hx, _, err := commitOn(ndb, &r1, node.RootTypeState, 2, nil)
+	h2, _, err := commitOn(ndb, &s1, node.RootTypeState, 2, []op{ins("b", "2")})
 	if err != nil {
-		ev.Infra(t, "commit X: %v", err)
+		ev.Infra(t, "commit v2: %v", err)
 	}
-	x := kv.Root(2, node.RootTypeState, hx)
-	if err = ndb.Finalize([]node.Root{x}); err != nil {
-		ev.Infra(t, "finalize X: %v", err)
+	s2 := kv.Root(2, node.RootTypeState, h2)
+	if err = ndb.Finalize([]node.Root{s2}); err != nil {
+		ev.Infra(t, "finalize v2: %v", err)
 	}
-	uni := [][]byte{[]byte("a"), []byte("b")}
-	rr := readRoot(ndb, x, m, uni, uni)
-	rec.Case(true, ev.Fingerprint("cross"), fmt.Sprintf("v2 state root: reads=%d failed=%d err=%q diff=%q", rr.Reads, rr.Failed, rr.Err, rr.Diff))
+	m2 := applyOps(kv.Model{}, []op{ins("a", "1"), ins("b", "2")})
+	uni := [][]byte{[]byte("a"), []byte("b"), []byte("c")}
+	if rr := readRoot(ndb, s2, m2, uni, uni); rr.Err != "" || rr.Diff != "" {
+		ev.Violation(t, "finalized-root-unreadable", "state root of version 2 before the prune: err=%q diff=%q", rr.Err, rr.Diff)
+	}
+	if err = ndb.Prune(1); err != nil {
+		rec.Case(true, ev.Fingerprint("cross-not-accepted"), "Prune(1) not accepted: "+err.Error())
+		return
+	}
+	rr := readRoot(ndb, s2, m2, uni, uni)
+	rec.Case(true, ev.Fingerprint("cross"), fmt.Sprintf("v2 state root after Prune(1): reads=%d failed=%d err=%q diff=%q", rr.Reads, rr.Failed, rr.Err, rr.Diff))
 	if rr.Err != "" || rr.Diff != "" {
 		if silenced(SigCross) {
 			rec.Label("silenced:" + SigCross)
 			return
 		}
-		ev.Violation(t, SigCross, "badger: v1 state={a=1} finalized; v2: IO candidate {a=1}, state candidate X=unchanged; Finalize([X]); reading the finalized X: %d of %d reads fail, first error %q, diff %q", rr.Failed, rr.Reads, rr.Err, rr.Diff)
+		ev.Violation(t, SigCross, "badger: v1 state={a=1} and IO={a=1} finalized; v2 state=+b=2 finalized; Prune(1); reading the retained finalized state root of version 2: %d of %d reads fail, first error %q, diff %q", rr.Failed, rr.Reads, rr.Err, rr.Diff)
 	}
 }
